@@ -55,6 +55,10 @@ CHECKS = {
          'Every function/method of strings, strconv, math, bytes, base64, filepath, regexp, json, string and byte_slice methods (discovered from the live modules; an unknown function is an engine error) is called with every argument tuple over its pools through the object API and through scripts and compared with the Go standard library; every codec round-trips every pool value and rejects exactly the malformed inputs (all strings <= 4 over a 6-symbol alphabet) that Go rejects; json codec and json module must agree.',
          'Trusted: the table of Go closures in internal/c19/table.go. Four known findings (json codec vs module on byte_slice and nil; invalid UTF-8 through encoding/json).',
          'E5 enum', '4 C19'),
+ 'C09': ('model_checking', 'stateless model checking of the implementation: 2-3 concurrent evaluations under the controlled scheduler, every schedule of the lock/access hook points up to a preemption bound, vector-clock happens-before race detection',
+         'Thirteen scenarios of 2-3 concurrent risor.Eval calls on separate VMs that meet on one piece of package-level or shared state (Go type registries through globals, field access and proxy method calls; the codec registry incl. registration; a shared importer; one compiled code object on two VMs; two clones of one VM). Package caches are reset before every execution; every schedule with at most 2 (thorough 3) preemptions is explored; a vector-clock detector reports conflicting hooked accesses that are not ordered by locks/spawn/join, and every result must equal the sequential result. Thorough adds a free-running -race build of the same bodies.',
+         'Trusted: the access hooks name every package-level map and cache of the anchored files (typeConverters, goTypeRegistry, GoType.converter, codecs, importer code caches); accesses the hooks do not name are only covered by the -race supplement.',
+         'E3 dsched', '4 C09'),
  'C10': ('model_checking', 'stateless model checking of the implementation: controlled scheduler over the hooked goroutines, DFS over all schedules up to a preemption bound, happens-before race detection on hooked accesses',
          'Each producer/consumer scenario (senders x receivers x buffer x messages x 4 receive forms x 3 spawn forms) is run as real risor evaluations under the controlled scheduler internal/dsched; every schedule with at most 2 preemptions is enumerated and every complete execution is judged: received multiset == sent multiset, per-sender order per receiver, wait() values, nil after close, no deadlock, no leftover task, no unordered access to the channel fields.',
          'Trusted: the scheduler owns every blocking operation through the verif hooks (channel send/receive/close, thread wait, spawn/start/end, context wait, halt store); instruction-level interleavings inside one VM step and memory-model effects below hook granularity are not modelled. 10^4-message runs are out of reach (DESIGN section 5).',
